@@ -1,6 +1,6 @@
 (* Lpm/LowerBound.v — LowerBound(q) yields exactly the entries not below q, relative to one
    byte-level fact that is not proved here (see lowerBound_exact_partial). *)
-From SV Require Import Base.Bytes Lpm.Model Lpm.Bits Lpm.Inv Lpm.Delete Lpm.Order Lpm.Iter.
+From SV Require Import Base.Bytes KeyEnc.Model Lpm.Model Lpm.Bits Lpm.Inv Lpm.Delete Lpm.Order Lpm.Iter.
 From Coq Require Import ZArith ZifyN ZifyNat ZifyBool.
 Open Scope N_scope.
 
@@ -120,3 +120,82 @@ Proof.
   destruct (lowerBound_go_spec kd kpl Cq Hc r [] 0 [] I (is_pre_nil _) ltac:(simpl; lia) ltac:(constructor)) as [N E].
   rewrite it_entries_spec; auto. rewrite E. cbn [flat_map]. now rewrite app_nil_r.
 Qed.
+
+(* ---------- the byte comparison agrees with the bit-string order ---------- *)
+Definition ltb_ok (a b : N) : bool := implb (a <? b) (bltb (byte_bits a) (byte_bits b)).
+Lemma ltb_table : forallb (fun a => forallb (ltb_ok a) range256) range256 = true.
+Proof. vm_compute. reflexivity. Qed.
+
+Lemma byte_lt_bits a b : a < 256 -> b < 256 -> a < b -> blt (byte_bits a) (byte_bits b).
+Proof.
+  intros Ha Hb Hlt. pose proof ltb_table as T. rewrite forallb_forall in T.
+  specialize (T a (in_range256 a Ha)). rewrite forallb_forall in T.
+  specialize (T b (in_range256 b Hb)). unfold ltb_ok in T.
+  apply N.ltb_lt in Hlt. rewrite Hlt in T. simpl in T. now apply bltb_spec.
+Qed.
+
+Lemma blt_app_lt a : forall b x y, length a = length b -> blt a b -> blt (a ++ x) (b ++ y).
+Proof.
+  induction a as [|c a IH]; intros b x y Hl H; inversion H; subst; simpl in *; try discriminate.
+  - constructor.
+  - constructor. apply IH; auto.
+Qed.
+Lemma blt_app_inv p : forall a b, blt (p ++ a) (p ++ b) -> blt a b.
+Proof. induction p as [|c p IH]; simpl; auto. intros a b H. inversion H; subst; auto. Qed.
+
+Lemma bytes_ltb_bits a : forall b, is_bytes a -> is_bytes b ->
+  (bytes_ltb a b = true <-> blt (bytes_bits a) (bytes_bits b)).
+Proof.
+  induction a as [|x a IH]; intros [|y b] Ha Hb; cbn [bytes_ltb bytes_bits].
+  - split; [discriminate|inversion 1].
+  - split; [intros _; unfold byte_bits; simpl; constructor|reflexivity].
+  - split; [discriminate|]. unfold byte_bits. simpl. inversion 1.
+  - inversion Ha; inversion Hb; subst.
+    destruct (N.ltb_spec x y) as [Hlt|Hge].
+    + split; [intros _|reflexivity]. apply blt_app_lt; [reflexivity|]. now apply byte_lt_bits.
+    + destruct (N.eqb_spec x y) as [->|Hne].
+      * rewrite IH by assumption. split; [apply blt_app|apply blt_app_inv].
+      * split; [discriminate|]. intros H. exfalso.
+        assert (Hgt : y < x) by lia.
+        eapply blt_asym; [exact H|]. apply blt_app_lt; [reflexivity|]. now apply byte_lt_bits.
+Qed.
+
+(* at the first differing position, the order is decided by the bit there *)
+Lemma blt_at_lcp a : forall b, (lcp a b < length a)%nat -> (lcp a b < length b)%nat ->
+  (blt a b <-> nth (lcp a b) b false = true).
+Proof.
+  induction a as [|x a IH]; intros [|y b]; simpl; try lia.
+  destruct (Bool.eqb x y) eqn:E; intros H1 H2.
+  - apply eqb_prop in E. subst y. simpl. rewrite <- IH by lia. split; [inversion 1; subst; auto|apply blt_tl].
+  - simpl. destruct x, y; simpl in E; try discriminate.
+    + split; [inversion 1|discriminate].
+    + split; [reflexivity|constructor].
+Qed.
+
+Lemma cmp_at_divergence_holds q : canon q -> cmp_at_divergence q.
+Proof.
+  intros Cq nk Cn H1 H2.
+  pose proof (canon_len nk Cn) as Ln. pose proof (canon_len q Cq) as Lq.
+  destruct Cn as (Bn & Lnd & _). destruct Cq as (Bq & Lqd & _).
+  unfold bits in *. rewrite lcp_firstn in *.
+  pose proof (bytes_bits_length (fst nk)) as LBn. pose proof (bytes_bits_length (fst q)) as LBq.
+  set (Bn' := bytes_bits (fst nk)) in *. set (Bq' := bytes_bits (fst q)) in *.
+  set (L := lcp Bn' Bq') in *.
+  assert (HL : Nat.min (Nat.min (N.to_nat (snd nk)) (N.to_nat (snd q))) L = L) by lia.
+  rewrite HL in *.
+  rewrite nth_firstn_lt by lia.
+  assert (HB : is_bytes (key_bytes nk)) by (apply Forall_app; split; [exact Bn|apply be16_bytes]).
+  pose proof (bytes_ltb_bits (key_bytes nk) (fst q) HB Bq) as Hiff.
+  unfold key_bytes in Hiff. rewrite bytes_bits_app in Hiff. fold Bn' Bq' in Hiff.
+  assert (Hl : lcp (Bn' ++ bytes_bits (be16 (snd nk))) Bq' = L) by (apply lcp_app_l; fold L; lia).
+  pose proof (blt_at_lcp (Bn' ++ bytes_bits (be16 (snd nk))) Bq') as Hat. rewrite Hl in Hat.
+  specialize (Hat ltac:(rewrite app_length; lia) ltac:(lia)).
+  unfold key_bytes. destruct (bytes_ltb (fst nk ++ be16 (snd nk)) (fst q)) eqn:Eb.
+  - symmetry. apply Hat. apply Hiff. reflexivity.
+  - destruct (nth L Bq' false) eqn:En; [|reflexivity]. exfalso.
+    assert (Ht : true = true) by reflexivity. apply Hat in Ht. apply Hiff in Ht. congruence.
+Qed.
+
+Theorem lowerBound_exact r q : canon q -> inv [] r ->
+  it_entries (lowerBound r q) = filter (not_below q) (entries r).
+Proof. intros Cq I. apply lowerBound_exact_partial; auto. now apply cmp_at_divergence_holds. Qed.
